@@ -76,7 +76,7 @@ def main(chk):
     native.build(); native.build('release')
     q = chk.tier == 'quick'
     ns = (1, 2, 3, 4) if q else (1, 2, 3, 4, 5)
-    to = 40 if q else 600
+    to = 90 if q else 900
     tf = (lambda n: 2 * n + 3) if q else (lambda n: 3 * n + 3)
     jobs = []
     J = lambda *a, **k: jobs.append((r_family, (mir,) + a + (chk.seed, to), k))
@@ -84,7 +84,7 @@ def main(chk):
         for nm, md in (('RSI', 'scalar'), ('FAST_STOCH', 'scalar'), ('ER', 'scalar'), ('MFI', 'bar')): J(nm, md, [n], tf(n), reset_prefix=n + 2)
         J('SLOW_STOCH', 'scalar', [n, 2], tf(n), reset_prefix=n + 2)
     for n in ns:
-        J('RSI', 'scalar', [n], tf(n))
+        if not (q and n > 3): J('RSI', 'scalar', [n], tf(n))
         J('FAST_STOCH', 'scalar', [n], tf(n)); J('FAST_STOCH', 'bar', [n], tf(n))
         J('ER', 'scalar', [n], tf(n)); J('MFI', 'bar', [n], tf(n))
         for e in (1, 2, 3):
